@@ -259,3 +259,61 @@ def den(v: dict):
         f = o.full() if k != "tenmat" else o.to_tensor()
         return tuple(int(s) for s in f.shape), flatF(f.data)
     return None
+
+
+def wf_sparse(v: dict, strict: bool = True) -> str:
+    """First failing well-formedness clause of a projected sparse tensor / sptenmat (as Sparse!WFWhy)."""
+    shape = v["mshape"] if v["kind"] == "sptenmat" else v["shape"]
+    if len(v["subs"]) != len(v["vals"]):
+        return "len(vals)#len(subs)"
+    for sub in v["subs"]:
+        if len(sub) != len(shape) or any(not (0 <= i < s) for i, s in zip(sub, shape)):
+            return "subscript-out-of-range"
+    if len({tuple(s) for s in v["subs"]}) != len(v["subs"]):
+        return "duplicate-subscript"
+    if strict and any(x == 0 for x in v["vals"]):
+        return "explicit-zero"
+    return "ok"
+
+
+def den_any(v: dict):
+    """(shape, flat F-order values) of any projected object kind, computed in plain python/numpy."""
+    k = v["kind"]
+    if k in ("dense", "sparse"):
+        return den(v)
+    if k == "array":
+        return tuple(v["shape"]), list(v["v"])
+    if k == "tenmat" or k == "sptenmat":
+        ts = tuple(v["tshape"])
+        order = list(v["rdims"]) + list(v["cdims"])
+        ms = v["mshape"]
+        if k == "tenmat":
+            M = np.array(v["m"], dtype=float).reshape(ms)
+        else:
+            M = np.zeros(ms)
+            for (r, c), x in zip(v["subs"], v["vals"]):
+                M[r, c] = x
+        data = np.reshape(M, [ts[d] for d in order], order="F")
+        if len(order) > 1:
+            data = np.transpose(data, np.argsort(order))
+        return ts, flatF(data)
+    if k == "ktensor":
+        shape = tuple(len(U) for U in v["U"])
+        R = len(v["w"])
+        out = np.zeros(shape)
+        for r in range(R):
+            t = np.array(v["w"][r], dtype=float)
+            for U in v["U"]:
+                t = np.multiply.outer(t, np.array([row[r] for row in U], dtype=float))
+            out += t
+        return shape, flatF(out)
+    if k == "ttensor":
+        core = np.array(v["core"]["v"], dtype=float).reshape(v["core"]["shape"], order="F")
+        for n, U in enumerate(v["U"]):
+            core = np.moveaxis(np.tensordot(np.array(U, dtype=float).reshape(len(U), -1), core,
+                                            axes=(1, n)), 0, n)
+        return tuple(core.shape), flatF(core)
+    if k == "sum":
+        ds = [den_any(p) for p in v["parts"]]
+        return ds[0][0], [sum(x) for x in zip(*[d[1] for d in ds])]
+    return None
